@@ -8,6 +8,7 @@ let () =
   | [| _; "barrier"; _ |] -> Drv_barrier.run ()
   | [| _; "stats"; _ |] -> Drv_stats.run ()
   | [| _; "queue" |] -> Drv_queue.run ()
+  | [| _; "flags" |] -> Drv_flags.run ()
   | [| _; "gvtphase"; _ |] -> Drv_gvt.run ()
   | [| _; "alloc"; _; _ |] -> Drv_alloc.run ()
   | a when Array.length a >= 6 && a.(1) = "seq" -> Drv_seq.run ()
